@@ -4,8 +4,13 @@
 // plain equality here and LLVM can decide it after folding the evaluator (enumerators, packs, tails) for the stated shapes.
 // What this adds to c12_enum (which decides the enumerators in isolation): the EVALUATOR's own decisions - which enumerator it picks for
 // which axis, how it seeds the output, how it treats tails and unit extents.
+// E1-PREFER: clang-O2-novec-scalarized
 #include "cview.hpp"
 #include "nmtools/array/eval/simd/vector_128.hpp"
+#include "nmtools/array/eval/simd/vector_256.hpp"
+#ifndef C12_CTX
+#define C12_CTX simd::vector_128
+#endif
 #include "nmtools/array/eval/simd/ufunc.hpp"
 #include "nmtools/array/array/ufuncs/add.hpp"
 #include "nmtools/array/array/ufuncs/multiply.hpp"
@@ -23,7 +28,7 @@ void ob_c12b_reduce3(const iarr<E0,E1,E2>& a)
     constexpr size_t ext[3] = {E0,E1,E2}; constexpr size_t ax = (size_t)(AX < 0 ? AX + 3 : AX);
     constexpr size_t o0 = ax == 0 ? E1 : E0, o1 = ax == 2 ? E1 : E2;
     constexpr long tag = E0*100 + E1*10 + E2;
-    auto r = [&](){ if constexpr (MUL) return na::multiply.reduce(a, AX, None, None, nm::False, simd::vector_128); else return na::add.reduce(a, AX, None, None, nm::False, simd::vector_128); }();
+    auto r = [&](){ if constexpr (MUL) return na::multiply.reduce(a, AX, None, None, nm::False, C12_CTX); else return na::add.reduce(a, AX, None, None, nm::False, C12_CTX); }();
     auto shp = nm::shape(r);
     OBLIGE("C12.eval.reduce.shape", (size_t)nm::len(shp) == 2 && (size_t)nm::at(shp,0) == o0 && (size_t)nm::at(shp,1) == o1, tag, AX+10, MUL);
     if ((size_t)nm::len(shp) == 2 && (size_t)nm::at(shp,0) == o0 && (size_t)nm::at(shp,1) == o1) {
@@ -46,7 +51,7 @@ void ob_c12b_reduce2(const iarr<E0,E1>& a)
     constexpr size_t ax = (size_t)(AX < 0 ? AX + 2 : AX);
     constexpr size_t o0 = ax == 0 ? E1 : E0;
     constexpr long tag = E0*100 + E1;
-    auto r = [&](){ if constexpr (MUL) return na::multiply.reduce(a, AX, None, None, nm::False, simd::vector_128); else return na::add.reduce(a, AX, None, None, nm::False, simd::vector_128); }();
+    auto r = [&](){ if constexpr (MUL) return na::multiply.reduce(a, AX, None, None, nm::False, C12_CTX); else return na::add.reduce(a, AX, None, None, nm::False, C12_CTX); }();
     auto shp = nm::shape(r);
     OBLIGE("C12.eval.reduce.shape", (size_t)nm::len(shp) == 1 && (size_t)nm::at(shp,0) == o0, tag, AX+10, MUL);
     if ((size_t)nm::len(shp) == 1 && (size_t)nm::at(shp,0) == o0) {
@@ -68,8 +73,8 @@ void ob_c12b_reduce_all(const iarr<E0,E1>& a, int init)
 {
     PINSHAPE(a, E0, E1);
     auto r = [&](){
-        if constexpr (INIT) { if constexpr (MUL) return na::multiply.reduce(a, None, None, init, nm::False, simd::vector_128); else return na::add.reduce(a, None, None, init, nm::False, simd::vector_128); }
-        else { if constexpr (MUL) return na::multiply.reduce(a, None, None, None, nm::False, simd::vector_128); else return na::add.reduce(a, None, None, None, nm::False, simd::vector_128); }
+        if constexpr (INIT) { if constexpr (MUL) return na::multiply.reduce(a, None, None, init, nm::False, C12_CTX); else return na::add.reduce(a, None, None, init, nm::False, C12_CTX); }
+        else { if constexpr (MUL) return na::multiply.reduce(a, None, None, None, nm::False, C12_CTX); else return na::add.reduce(a, None, None, None, nm::False, C12_CTX); }
     }();
     unsigned want = INIT ? (unsigned)init : (MUL ? 1u : 0u);
     for_<E0>([&](auto I){ for_<E1>([&](auto J){ const unsigned x = (unsigned)a(I.value, J.value); want = MUL ? want * x : want + x; }); });
@@ -81,7 +86,7 @@ void ob_c12b_reduce_keepdims_initial(const iarr<E0,E1>& a, int init)
 {
     PINSHAPE(a, E0, E1);
     constexpr size_t ax = (size_t)(AX < 0 ? AX + 2 : AX); constexpr size_t o0 = ax == 0 ? 1 : E0, o1 = ax == 1 ? 1 : E1;
-    auto r = na::add.reduce(a, AX, None, init, nm::True, simd::vector_128);
+    auto r = na::add.reduce(a, AX, None, init, nm::True, C12_CTX);
     auto shp = nm::shape(r);
     OBLIGE("C12.eval.reduce.keepdims_shape", (size_t)nm::len(shp) == 2 && (size_t)nm::at(shp,0) == o0 && (size_t)nm::at(shp,1) == o1, E0*100+E1, AX+10);
     if ((size_t)nm::len(shp) == 2 && (size_t)nm::at(shp,0) == o0 && (size_t)nm::at(shp,1) == o1)
@@ -95,9 +100,15 @@ void ob_c12b_reduce_keepdims_initial(const iarr<E0,E1>& a, int init)
 RA(1,1,false,false) RA(1,3,true,false) RA(2,2,false,false) RA(2,5,false,true) RA(3,3,true,true) RA(1,9,false,false)
 #define RK(E0,E1,AX) template void ob_c12b_reduce_keepdims_initial<E0,E1,AX>(const iarr<E0,E1>&, int);
 RK(2,5,0) RK(2,5,1) RK(3,4,-1) RK(3,1,0)
+#ifdef VERIF_THOROUGH
+R2(3,9,0,false) R2(3,9,1,true) R2(2,8,-1,true) R2(9,2,0,false) R2(1,1,0,false)
+R3(2,2,6,2,false) R3(2,5,2,1,true) R3(3,1,4,0,false) R3(1,1,5,2,false) R3(2,2,2,-2,false) R3(1,2,1,0,false)
+RA(2,9,true,false) RA(3,5,false,true) RA(1,17,false,false)
+RK(2,9,1) RK(5,2,-2)
+#endif
 void ob_c12b_negctl(const iarr<2,5>& a)
 {
     PINSHAPE(a, 2, 5);
-    auto r = na::add.reduce(a, 0, None, None, nm::False, simd::vector_128);
+    auto r = na::add.reduce(a, 0, None, None, nm::False, C12_CTX);
     NEGCTL("C12.NEG.eval_reduce_is_first_row", (int)r(0) == a(0,0), 0);
 }
